@@ -157,18 +157,34 @@ def exists_in(I, term, pred, note):
     b = ctx.fresh_bool("ex")
     w = ctx.fresh_int("w")
     m = term.new_member(b, w)
-    ctx.pure_depth += 1
+    rng = z3.And(w >= 0, w < term.length())
+
+    def at_witness():
+        ctx.pure_depth += 1
+        try:
+            return to_z3(pred(m.elem, w))
+        finally:
+            ctx.pure_depth -= 1
     try:
-        ctx.assume(z3.Implies(b, to_z3(pred(m.elem, w))))
-    finally:
-        ctx.pure_depth -= 1
+        pw = at_witness()
+    except Unsupported:
+        # the predicate indexes other lists: evaluate it with the witness assumed in range
+        pw = ctx.eval_under(rng, at_witness)
+    ctx.assume(z3.Implies(b, pw))
 
     def neg(elem, idx):
-        I.ctx.pure_depth += 1
+        c2 = I.ctx
+
+        def ev():
+            c2.pure_depth += 1
+            try:
+                return z3.Not(to_z3(pred(elem, idx)))
+            finally:
+                c2.pure_depth -= 1
         try:
-            return z3.Not(to_z3(pred(elem, idx)))
-        finally:
-            I.ctx.pure_depth -= 1
+            return ev()
+        except Unsupported:
+            return c2.eval_under(z3.And(idx >= 0, idx < term.length()), ev)
     term.all_facts.append((z3.Not(b), neg, "not-" + note))
     return b, m
 
